@@ -191,11 +191,15 @@ func genHost(r *rand.Rand) string {
 	if r.IntN(12) == 0 {
 		n = 4 + r.IntN(3)
 	}
+	long := r.IntN(8) == 0 // names around and beyond 127 / 255 bytes of extension body
+	if long {
+		n = 2 + r.IntN(3)
+	}
 	var labels []string
 	for i := 0; i < n; i++ {
 		l := 1 + r.IntN(12)
-		if r.IntN(10) == 0 {
-			l = 63
+		if r.IntN(10) == 0 || long {
+			l = 63 - r.IntN(4)
 		}
 		b := make([]byte, l)
 		for j := range b {
@@ -372,6 +376,23 @@ func c29Case(c *core.Ctx, f *fpConfig, caseID string, salt uint64) {
 		cfg.ClientSessionCache = ztls.NewLRUClientSessionCache(4)
 		c.Count("configs_with_client_session_cache", 1)
 	}
+	// the extension encoders on their own (exported Marshal methods), before the client may rewrite the list
+	for i, e := range f.exts {
+		host := e.host
+		if e.kind == "sni" && host == "" {
+			continue // autopopulate-only: nothing configured to encode yet
+		}
+		var enc []byte
+		if mpi := core.Guard(func() { enc = fp.Extensions[i].Marshal() }); mpi != nil {
+			c.Violation("fp:extension:"+e.kind+":marshal-"+panicKey(mpi), mpi.Value, caseID, input)
+			continue
+		}
+		c.Count("extension_marshal_checked", 1)
+		if want := e.encode(host); !bytes.Equal(enc, want) {
+			input["extension"], input["marshal"], input["expected"] = e.String(), hx(enc), hx(want)
+			c.Violation("fp:extension:"+e.kind+":marshal", fmt.Sprintf("%s.Marshal() = %x, RFC encoding %x", e, enc, want), caseID, input)
+		}
+	}
 	wire, herr, pi := firstFlight(cfg)
 	input["wire"] = hx(wire)
 	input["handshake_error"] = fmt.Sprint(herr)
@@ -386,7 +407,10 @@ func c29Case(c *core.Ctx, f *fpConfig, caseID string, salt uint64) {
 		case strings.Contains(es, "Unsupported Hash and Signature"):
 			c.Count("rejected:signature-algorithm-not-implemented", 1)
 		case strings.Contains(es, "incompatible ClientFingerprintConfiguration"):
+			// the client parsed the hello it had just built and refused it: the configuration is inside the
+			// documented domain, so either an encoder or the ClientHello parser is wrong
 			c.Count("rejected:incompatible", 1)
+			c.Violation("fp:in-domain-configuration-refused-as-incompatible", "clientHelloMsg.unmarshal refuses the ClientHello built from this configuration", caseID, input)
 		default:
 			c.Count("rejected:other", 1)
 			c.Note("rejected: %s", es)
